@@ -22,7 +22,7 @@ var c01Kinds = []struct{ fn, lookup, exec, ex string }{
 
 func runC01(c *Ctx, tier string) {
 	r := NewReport("C01", "other", tier, c)
-	r.Explanation = "Structural necessary-and-sufficient conditions for the shape of the result set, decided for every input: (1) result-loop: for each of executeCertificate/executeRevocationList/executeOcspResponse the decision table (loop unrolled twice, then cut) shows Results is a fresh map, the loop ranges over registry.<Kind>Lints().Lints(), and every iteration performs exactly: Execute(elem, o, registry.GetConfiguration()), res.LintMetadata = elem.LintMetadata, Results[elem.Name] = res, updateErrorStatePresent(res) — no branch can skip any of them, nothing but the index is carried between iterations (induction), and no other function in the module writes Results or the four flags; the three register siblings reject duplicate names before any update, so the name→result map is lossless. (2) non-nil: the status-flow analysis shows no registered Execute (377) nor the framework's can return nil. (3) seven-statuses: every status that can reach a returned result is one of the seven named constants — never Reserved (zero value, literal without Status), out-of-range, converted or computed; a zero-initialised status cell is accepted only if every path leaving it unwritten contradicts the lint's own CheckApplies table. (4) flags-table: the decision table of updateErrorStatePresent over Status ∈ {-1..8} sets exactly NoticesPresent/WarningsPresent/ErrorsPresent/FatalsPresent for Notice/Warn/Error/Fatal and nothing otherwise; flags are never reset. (5) entry points: Lint*Ex return nil only for a nil object, substitute the global registry for a nil one, run the matching execute* on a new ResultSet and stamp Version = the major version of the module path. (6) the certificate path's recover net. Does not decide termination of lint bodies ('no hang') nor panic-freedom of CRL/OCSP lints (C02)."
+	r.Explanation = "Structural necessary-and-sufficient conditions for the shape of the result set, decided for every input: (1) result-loop: for each of executeCertificate/executeRevocationList/executeOcspResponse the decision table (loop unrolled twice, then cut) shows Results is a fresh map, the loop ranges over registry.<Kind>Lints().Lints(), and every iteration performs exactly: Execute(elem, o, registry.GetConfiguration()), res.LintMetadata = elem.LintMetadata, Results[elem.Name] = res, updateErrorStatePresent(res) — no branch can skip any of them, nothing but the index is carried between iterations (induction), and no other function in the module writes Results or the four flags; the three register siblings reject duplicate names before any update, so the name→result map is lossless, and the registry's read API (Lints, Names, ...) returns exactly the tables register fills (no stale copy). (2) non-nil: the status-flow analysis shows no registered Execute (377) nor the framework's can return nil. (3) seven-statuses: every status that can reach a returned result is one of the seven named constants — never Reserved (zero value, literal without Status), out-of-range, converted or computed; a zero-initialised status cell is accepted only if every path leaving it unwritten contradicts the lint's own CheckApplies table. (4) flags-table: the decision table of updateErrorStatePresent over Status ∈ {-1..8} sets exactly NoticesPresent/WarningsPresent/ErrorsPresent/FatalsPresent for Notice/Warn/Error/Fatal and nothing otherwise; flags are never reset. (5) entry points: Lint*Ex return nil only for a nil object, substitute the global registry for a nil one, run the matching execute* on a new ResultSet and stamp Version = the major version of the module path. (6) the certificate path's recover net. Does not decide termination of lint bodies ('no hang') nor panic-freedom of CRL/OCSP lints (C02)."
 	r.Rule("result-loop: every iteration stores exactly one result under the lint's own name with its metadata and updates the flags")
 	r.Rule("results-writers: only execute*/updateErrorStatePresent/Lint*Ex write ResultSet fields")
 	r.Rule("non-nil: no Execute returns nil")
@@ -35,9 +35,7 @@ func runC01(c *Ctx, tier string) {
 
 	c01Loops(c, r)
 	c01Writers(c, r)
-	for _, k := range lookupKinds {
-		c12Register(c, r, k.impl, c.Method("lint", k.impl, "register"))
-	}
+	c12Registry(c, r) // registry coherence: what Lints()/Names() return is what register filled
 	cs := BuildCensus(c)
 	r.Floor("registrations", 370, len(cs.Regs))
 	c01Statuses(c, r, cs)
